@@ -54,6 +54,9 @@ type Spec struct {
 	Families func(tier string) []Family
 	// Extra, if set, is merged into coverage by the parent after the run.
 	Extra func(tier string) map[string]interface{}
+	// CaseTimeout overrides the per-case hang watchdog (default 120 s); checks
+	// whose single case is a whole schedule exploration need more.
+	CaseTimeout time.Duration
 	// SelfTest, if set, runs in the parent before any family; a non-nil error
 	// is an engine error (exit 2), never a verdict.
 	SelfTest func() error
@@ -207,6 +210,9 @@ func trimStack(st []byte) string {
 func Main(spec Spec) {
 	flag.Parse()
 	debug.SetMaxStack(48 << 20)
+	if spec.CaseTimeout > 0 {
+		caseTimeout = spec.CaseTimeout
+	}
 	fams := spec.Families(*flagTier)
 	switch {
 	case *flagOnly != "":
@@ -234,6 +240,9 @@ func findFam(fams []Family, name string) *Family {
 // ---- worker ----
 
 var curIndex int64 = -1
+
+// caseTimeout is how long one case may run before the worker reports a hang.
+var caseTimeout = 120 * time.Second
 
 func workerMain(spec Spec, fams []Family) {
 	runtime.GOMAXPROCS(1)
@@ -269,7 +278,7 @@ func workerMain(spec Spec, fams []Family) {
 				last, lastChange = c, time.Now()
 				continue
 			}
-			if c >= 0 && time.Since(lastChange) > 120*time.Second {
+			if c >= 0 && time.Since(lastChange) > caseTimeout {
 				fmt.Fprintf(os.Stderr, "VLIB-HANG %d\n", c)
 				os.Exit(3)
 			}
